@@ -382,6 +382,10 @@ func main() {
 		res.Write(o)
 		return
 	}
+	if o.Replay != "" && (prop == "C05" || prop == "C10") && replayDef(prop, o.Replay, res) {
+		res.Write(o)
+		return
+	}
 	if o.Replay != "" {
 		// re-run exactly the recorded history (a replay file without an input, e.g. for a broken proof,
 		// falls through to the normal run of the recorded seed)
@@ -486,6 +490,10 @@ func main() {
 	if prop == "C05" && !hung {
 		// the payload-length clause on action types outside the modelled fragment (direct oracle only)
 		payloadStream(rnd.Fork("payload"), o.Count(300, 6000), res)
+	}
+	if (prop == "C05" || prop == "C10") && !hung {
+		// definitions outside the modelled fragment: flow types changed between sprints, odd reference lists
+		defStream(prop, rnd.Fork("definitions"), o.Count(150, 3000), res)
 	}
 	res.Write(o)
 }
